@@ -1,6 +1,7 @@
 package props
 
 import (
+	"strings"
 	"fmt"
 	"go/token"
 	"go/types"
@@ -25,6 +26,8 @@ func c13(c *core.Check) {
 	c13Spacing(c)
 	c13SpanWidth(c)
 	c13RowBottom(c)
+	c13CellX(c)
+	c13MinWidth(c)
 
 	r3 := c.Rule("R3", "the table layout code mirrors its side-symmetric assignments, sums margins, paddings and borders with consistent sides, and passes its named arguments in order", 6)
 	tfiles := map[string]bool{"tables.go": true}
@@ -515,5 +518,185 @@ func c13RowBottom(c *core.Check) {
 	}
 	if n == 0 {
 		r.Anchor("tableLayout: row.PositionY + row.Height")
+	}
+}
+
+// c13CellX: where a cell starts, and how an excess width is shared.
+func c13CellX(c *core.Check) {
+	p := c.Prog
+	r := c.Rule("R7", "cells start on their columns and shares add up: in tableLayout a cell's PositionX is the position of column GridX in a left-to-right table and of column GridX + Colspan − 1 in a right-to-left one, read from ColumnPositions without further arithmetic (the positions already contain the spacing); and where an excess width is divided by the number of columns of a list, the quotient is added to every column of that list (one per iteration, unconditionally)", 3)
+	leaf := func(v ssa.Value) string {
+		if ld, ok := v.(*ssa.UnOp); ok {
+			if fa, ok := ld.X.(*ssa.FieldAddr); ok {
+				switch core.FieldName(fa) {
+				case "GridX", "Colspan":
+					return core.FieldName(fa)
+				}
+			}
+		}
+		return ""
+	}
+	nPos := 0
+	for _, fn := range p.FuncsOfPkg("html/layout") {
+		root := fn
+		for root.Parent() != nil {
+			root = root.Parent()
+		}
+		if root.Name() != "tableLayout" {
+			continue
+		}
+		fn := fn
+		core.Instrs(fn, func(in ssa.Instruction) {
+			st, ok := in.(*ssa.Store)
+			if !ok {
+				return
+			}
+			fa, ok := st.Addr.(*ssa.FieldAddr)
+			if !ok || core.FieldName(fa) != "PositionX" {
+				return
+			}
+			// only the stores whose value comes from ColumnPositions
+			fromCols := core.DerivesFrom(st.Val, func(v ssa.Value) bool { return core.IsFieldNamed(v, "ColumnPositions") }) ||
+				arithDerives(st.Val, func(v ssa.Value) bool {
+					ld, ok := v.(*ssa.UnOp)
+					if !ok {
+						return false
+					}
+					ia, ok := ld.X.(*ssa.IndexAddr)
+					return ok && core.IsFieldNamed(ia.X, "ColumnPositions")
+				})
+			if !fromCols {
+				return
+			}
+			nPos++
+			key := fmt.Sprintf("%s | cell.PositionX #%d", core.FuncName(fn), nPos)
+			ld, isLoad := st.Val.(*ssa.UnOp)
+			var ia *ssa.IndexAddr
+			if isLoad {
+				ia, _ = ld.X.(*ssa.IndexAddr)
+			}
+			if ia == nil {
+				r.Fail(key, p.Pos(st.Pos()), "the position is computed from a column position with further arithmetic: column positions already include the border spacing between columns")
+				return
+			}
+			lin, okl := core.LinearOf(ia.Index, leaf, 0)
+			form := ""
+			if okl {
+				form = core.LinearAtom(token.EQL, lin, core.Lin{T: map[string]int64{}})
+			}
+			okForm := form == "GridX == 0" || form == "Colspan + GridX - 1 == 0"
+			r.Cond(okForm, key, p.Pos(st.Pos()), "ColumnPositions["+strings.TrimSuffix(form, " == 0")+"]", "the cell is placed on column `"+strings.TrimSuffix(form, " == 0")+"`, not on its first (ltr) or last (rtl) column")
+		})
+	}
+	if nPos == 0 {
+		r.Anchor("tableLayout: cell.PositionX from ColumnPositions")
+	}
+	// shares
+	nShare := 0
+	for _, name := range []string{"autoTableLayout", "distributeExcessWidth", "fixedTableLayout"} {
+		fn := p.Fn("html/layout", name)
+		if fn == nil {
+			continue
+		}
+		for _, div := range floatCountDivs(fn) {
+			cnt := countFactor(div.Y, 0)
+			call, ok := cnt.(*ssa.Call)
+			if !ok {
+				continue
+			}
+			b, isB := call.Call.Value.(*ssa.Builtin)
+			if !isB || b.Name() != "len" {
+				continue
+			}
+			// the stores that add the quotient to an element
+			var stores []*ssa.Store
+			core.Instrs(fn, func(in ssa.Instruction) {
+				st, ok := in.(*ssa.Store)
+				if !ok {
+					return
+				}
+				if _, isElem := st.Addr.(*ssa.IndexAddr); !isElem {
+					return
+				}
+				if add, ok := st.Val.(*ssa.BinOp); ok && add.Op == token.ADD && (add.X == ssa.Value(div) || add.Y == ssa.Value(div)) {
+					stores = append(stores, st)
+				}
+			})
+			for _, st := range stores {
+				nShare++
+				key := fmt.Sprintf("html/layout.%s | += %s", name, opText(p, fn, div))
+				l := core.InnermostLoop(fn, st.Block())
+				if l == nil {
+					r.Fail(key, p.Pos(st.Pos()), "the share is not added in a loop")
+					continue
+				}
+				// the loop ranges over the slice whose length divides
+				ranges := false
+				if ifi, ok := l.Header.Instrs[len(l.Header.Instrs)-1].(*ssa.If); ok {
+					if cmp, ok := ifi.Cond.(*ssa.BinOp); ok {
+						if lc, ok := cmp.Y.(*ssa.Call); ok {
+							if b2, isB := lc.Call.Value.(*ssa.Builtin); isB && b2.Name() == "len" && (lc.Call.Args[0] == call.Call.Args[0]) {
+								ranges = true
+							}
+						}
+					}
+				}
+				always, _ := core.EveryIterationPasses(l, func(in ssa.Instruction) bool { return in == ssa.Instruction(st) })
+				r.Cond(ranges && always, key, p.Pos(st.Pos()), "added once per element of the list whose length divides", fmt.Sprintf("the excess is divided by the length of a list but the quotient is not added to every element of that list (loop over the same list: %v, added on every iteration: %v): the columns no longer fill the table's width", ranges, always))
+			}
+		}
+	}
+	if nShare == 0 {
+		r.Anchor("table layout: excess / len(columns) added to the columns")
+	}
+}
+
+// c13MinWidth: a specified width never makes the table narrower than its content's minimum.
+func c13MinWidth(c *core.Check) {
+	p := c.Prog
+	r := c.Rule("R8", "a table is never narrower than its content's minimum: in tableAndColumnsPreferredWidths every value of the table's min-content (resp. max-content) width that comes from the specified width through adjust(…) is combined by a maximum with the width computed from the columns", 2)
+	fn := p.Fn("html/layout", "tableAndColumnsPreferredWidths")
+	if fn == nil {
+		r.Anchor("html/layout.tableAndColumnsPreferredWidths")
+		return
+	}
+	n := 0
+	core.Instrs(fn, func(in ssa.Instruction) {
+		call, ok := in.(*ssa.Call)
+		if !ok || !calleeIsLocal(call, "adjust") {
+			if !ok || call.Call.StaticCallee() == nil || call.Call.StaticCallee().Name() != "adjust" {
+				return
+			}
+		}
+		// only the calls on the table's own specified widths (inner widths: outer == false)
+		if len(call.Call.Args) < 2 {
+			return
+		}
+		if k, isK := call.Call.Args[1].(*ssa.Const); !isK || k.Value == nil || k.Value.String() != "false" {
+			return
+		}
+		refs := call.Referrers()
+		if refs == nil {
+			return
+		}
+		direct := false
+		for _, ref := range *refs {
+			switch x := ref.(type) {
+			case *ssa.Call:
+				if x.Call.StaticCallee() != nil && strings.EqualFold(x.Call.StaticCallee().Name(), "max") {
+					n++
+					r.OK(fmt.Sprintf("html/layout.tableAndColumnsPreferredWidths | adjust(…) #%d", n), p.Pos(call.Pos()), "combined by Max with the width computed from the columns")
+					direct = true
+				}
+			case *ssa.Phi, *ssa.Store, *ssa.Return:
+				n++
+				r.Fail(fmt.Sprintf("html/layout.tableAndColumnsPreferredWidths | adjust(…) #%d", n), p.Pos(call.Pos()), "the width derived from the specified width replaces the width computed from the columns instead of being combined with it by a maximum: `width: 40px` on a table whose columns need 98px gives a 40px table")
+				direct = true
+			}
+		}
+		_ = direct
+	})
+	if n == 0 {
+		r.Anchor("tableAndColumnsPreferredWidths: uses of adjust(…)")
 	}
 }
